@@ -21,6 +21,19 @@ CLAIMED = {
         category="translation_validation", design_ref="§5 C01", engine="S",
         text="For each program (hand-written core exhausting the interaction shapes + seeded random typed grammar) and input-shape assignment, the real eager path is executed over symbolic tensors (forking on tensor->bool/int), the protos from the real converter are interpreted symbolically, and z3 decides per eager path that outputs agree for ALL input values; both the to_model_proto and the to_function_proto leg. Structure enumerated, values decided.",
         note=S_NOTE, technique="translation validation: symbolic ONNX semantics + forking symbolic eager execution, z3 equivalence per path, ORT/eager replay"),
+    "C02": dict(
+        category="other", design_ref="§5 C02", engine="X+S",
+        text="(a) solver: CrossHair/z3 inductive step of the converter's name allocator from an arbitrary pre-state (any subset of a 6-name collision table, counter 0..2, any candidate): fresh, recorded, monotone - covers allocation histories of any length over those names. (b) enumeration (labelled so in evidence): every FunctionProto/ModelProto of the C01 corpus passes an independent structural checker (SSA, scoping, subgraph outputs, outputs distinct / not inputs, one import per used domain) and onnx.checker strict on typed variants (output types taken from the symbolic eager run); near-miss programs must be refused with a source position.",
+        note="Trusted: CrossHair models; my structural checker; onnx.checker. Part (b) decides nothing beyond the corpus; the allocator lemma is bounded by the table and counter range.",
+        technique="symbolic execution (CrossHair+z3) inductive-step lemma + structural checking of emitted protos over a generated corpus"),
+    "C03": dict(
+        category="translation_validation", design_ref="§5 C03", engine="S",
+        text="For each generated model (typed random DAGs with constants, initializer-inputs, shape chains, casts, If/Loop bodies with captured values and own initializers, sequences, Dropout, zero-size tensors, local functions with attribute refs) and each transformation/option tuple (optimize on proto and IR, fold_constants, default rewrite, remove_unused_nodes): symonnx interprets M and f(M) on the same symbolic inputs and z3 decides equality of all outputs for ALL input values (exact; floats additionally under a forward-error bound when the exact query is sat).",
+        note=S_NOTE, technique="translation validation: symbolic ONNX semantics of M and optimize(M), z3 equivalence for all inputs, onnxruntime replay"),
+    "C04": dict(
+        category="translation_validation", design_ref="§5 C04", engine="S",
+        text="Same runs as C03 on a disjoint seed: the solver part decides equivalence over the override values of initializer-inputs (a folded default yields a counterexample v != default); totality (no exception), validity of the result (independent structural checker + onnx.checker, relative to the input) and signature preservation are side verdicts of the enumerated runs, labelled as such.",
+        note=S_NOTE + " Side verdicts are enumeration, not solver verdicts.", technique="translation validation with symbolic override values for initializer-inputs; structural side verdicts per run"),
     "C20": dict(
         category="other", design_ref="§5 C20", engine="X",
         text="CrossHair/z3 symbolic execution of the real save_model_with_external_data with ir.save stubbed: which initializers are uninitialised, path shape, verbose/tqdm and whether the save faults are solver variables; refusal-before-write, single call with <basename>.data, exception propagation and object identity of the initializers are decided over all combinations. Narrow: what onnx_ir.save does per file-system call is outside the claim.",
